@@ -116,6 +116,12 @@ fn parse_prefix(name: &str, fragment: &yaml::Yaml) -> Result<Option<Prefix>, Err
                 }
             }
             let prefix = prefix.unwrap();
+            if prefix.prefixlen > 128 {
+                return Err(Error::InvalidConfig(format!(
+                    "{} prefix length {} is longer than an IPv6 address",
+                    name, prefix.prefixlen
+                )));
+            }
             Ok(Some(Prefix {
                 addr: prefix.addr,
                 prefixlen: prefix.prefixlen,
